@@ -29,6 +29,7 @@ static long fault_begin (void)
 {
   long a0 = yv_lib_allocs;
   if (fault_k > 0) { yv_fail_at = yv_lib_allocs + fault_k; yv_fail_sticky = 0; }
+  if (fault_k >= 100000000) { yv_sites_on = 1; yv_sites_n = 0; }	/* counting pass */
   return a0;
 }
 /* returns 1 if the failure was really injected during the call */
@@ -40,7 +41,24 @@ static int fault_end (long a0, int s, const char *what)
       int i;
       printf ("{\"k\":\"fault\",\"g\":\"%s\",\"op\":%ld,\"what\":\"%s\",\"fk\":%ld,\"injected\":%d,\"allocs\":%ld,\"bt\":[", bid, n_ops, what, fault_k, injected, yv_lib_allocs - a0);
       for (i = 0; injected && i < yv_fail_bt_n; i++) printf ("%s\"%p\"", i ? "," : "", yv_fail_bt[i]);
-      printf ("]}\n");
+      printf ("]");
+      if (yv_sites_on)
+	{
+	  /* first and last request number of every distinct call site */
+	  long a, b;
+	  int first = 1;
+	  printf (",\"sitek\":[");
+	  for (a = 0; a < yv_sites_n; a++)
+	    {
+	      int is_first = 1, is_last = 1;
+	      for (b = 0; b < a && is_first; b++) if (yv_sites[b] == yv_sites[a]) is_first = 0;
+	      for (b = a + 1; b < yv_sites_n && is_last && !is_first; b++) if (yv_sites[b] == yv_sites[a]) is_last = 0;
+	      if (is_first || is_last) { printf ("%s%ld", first ? "" : ",", a + 1); first = 0; }
+	    }
+	  printf ("]");
+	  yv_sites_on = 0;
+	}
+      printf ("}\n");
       if (injected) { n_injected++; poisoned[s] = 1; }
     }
   yv_fail_at = 0; fault_k = 0;
